@@ -395,7 +395,144 @@ pub fn oracles(cases: &[EnumCase], rep: &mut Report) {
             }
         }
     }
+    // Kotlin and Dart cannot be run here; their enum classes are small enough to evaluate by reading them: the entry
+    // list, how `toNative` / `_ffi` obtains the number (position or stored value), and how `fromNative` finds the
+    // entry (position or the `when` table).  Variants are matched by declaration position.
+    let kt_out = tool::run_backend(&src, "kotlin");
+    if kt_out.ok() {
+        let mut lines = String::new();
+        for c in cases {
+            let Some((_, text)) = kt_out.files.iter().find(|(k, _)| k.ends_with(&format!("/{}.kt", c.name))) else {
+                rep.oracle_fail(&c.sexp(), "kotlin-file-missing", json!(c.name));
+                continue;
+            };
+            match kotlin_enum_eval(text, &c.name) {
+                Err(e) => rep.oracle_fail(&c.sexp(), "kotlin-enum-unreadable", json!({"why": e})),
+                Ok(k) => {
+                    if k.entries.len() != c.vars.len() {
+                        rep.oracle_fail(&c.sexp(), "kotlin-entry-count", json!({"entries": k.entries.iter().map(|e| e.0.clone()).collect::<Vec<_>>(), "variants": c.vars.len()}));
+                        continue;
+                    }
+                    for (i, (v, _)) in c.vars.iter().enumerate() {
+                        lines += &format!("{} {} {}\n", c.name, v, k.to_native(i));
+                        let want = refmap.get(&(c.name.clone(), v.clone())).cloned().unwrap_or(i64::MIN);
+                        let back = k.from_native(want);
+                        if back != Some(i) {
+                            rep.oracle_fail(&c.sexp(), "kotlin-fromNative", json!({"enum": c.name, "variant": v, "rust_value": want, "fromNative_gives_entry": back.map(|j| k.entries[j].0.clone()), "expected_entry": k.entries[i].0}));
+                        }
+                    }
+                }
+            }
+        }
+        compare("kotlin", &lines, rep);
+    } else {
+        rep.oracle_fail(&all_case, "kotlin-run", json!(kt_out.status()));
+    }
+    if dart_out.ok() {
+        let mut lines = String::new();
+        for c in cases {
+            let Some(text) = dart_out.files.get(&format!("{}.g.dart", c.name)) else { continue };
+            match dart_enum_eval(text, &c.name) {
+                Err(e) => rep.oracle_fail(&c.sexp(), "dart-enum-unreadable", json!({"why": e})),
+                Ok(vals) => {
+                    if vals.len() != c.vars.len() {
+                        rep.oracle_fail(&c.sexp(), "dart-entry-count", json!({"entries": vals.len(), "variants": c.vars.len()}));
+                        continue;
+                    }
+                    for (i, (v, _)) in c.vars.iter().enumerate() {
+                        lines += &format!("{} {} {}\n", c.name, v, vals[i]);
+                    }
+                }
+            }
+        }
+        compare("dart", &lines, rep);
+    }
     let _ = std::fs::remove_dir_all(&dir);
+}
+
+pub struct KtEnum {
+    /// (entry name, stored value if the class carries one)
+    pub entries: Vec<(String, Option<i64>)>,
+    pub to_native_by_ordinal: bool,
+    /// None: `entries[native]`; Some(table): the `when` arms, value -> entry name
+    pub from_table: Option<Vec<(i64, String)>>,
+}
+impl KtEnum {
+    pub fn to_native(&self, i: usize) -> String {
+        if self.to_native_by_ordinal { i.to_string() } else { self.entries[i].1.map(|v| v.to_string()).unwrap_or("no-stored-value".into()) }
+    }
+    pub fn from_native(&self, n: i64) -> Option<usize> {
+        match &self.from_table {
+            None => if n >= 0 && (n as usize) < self.entries.len() { Some(n as usize) } else { None },
+            Some(t) => t.iter().find(|(v, _)| *v == n).and_then(|(_, name)| self.entries.iter().position(|e| &e.0 == name)),
+        }
+    }
+}
+
+fn fn_body<'a>(text: &'a str, head: &str) -> Option<&'a str> {
+    let at = text.find(head)?;
+    let open = at + text[at..].find('{')?;
+    let mut depth = 0usize;
+    for (i, ch) in text[open..].char_indices() {
+        match ch { '{' => depth += 1, '}' => { depth -= 1; if depth == 0 { return Some(&text[open + 1..open + i]); } } _ => {} }
+    }
+    None
+}
+
+pub fn kotlin_enum_eval(text: &str, name: &str) -> Result<KtEnum, String> {
+    let at = text.find(&format!("enum class {name}")).ok_or("no `enum class`")?;
+    let rest = &text[at..];
+    let open = rest.find('{').ok_or("no body")?;
+    let header = &rest[..open];
+    let semi = rest[open..].find(';').ok_or("no `;` after the entries")? + open;
+    let mut entries = vec![];
+    for e in rest[open + 1..semi].split(',') {
+        let e = e.trim();
+        if e.is_empty() { continue; }
+        match e.split_once('(') {
+            Some((n, v)) => entries.push((n.trim().to_string(), Some(v.trim_end_matches(')').trim().parse::<i64>().map_err(|_| format!("entry `{e}`"))?))),
+            None => entries.push((e.to_string(), None)),
+        }
+    }
+    if header.contains("val inner") != entries.iter().all(|e| e.1.is_some()) && !entries.is_empty() {
+        return Err("stored values and the class header disagree".into());
+    }
+    let tn = fn_body(rest, "fun toNative()").ok_or("no toNative")?;
+    let to_native_by_ordinal = if tn.contains("this.ordinal") { true } else if tn.contains("this.inner") { false } else { return Err(format!("toNative body `{}`", tn.trim())) };
+    let fr = fn_body(rest, "fun fromNative(").ok_or("no fromNative")?;
+    let from_table = if fr.contains(".entries[native]") { None } else if fr.contains("when (native)") {
+        let mut t = vec![];
+        for l in fr.lines() {
+            if let Some((a, b)) = l.split_once("->") {
+                if let Ok(v) = a.trim().parse::<i64>() { t.push((v, b.trim().to_string())); }
+            }
+        }
+        Some(t)
+    } else { return Err(format!("fromNative body `{}`", fr.trim())) };
+    Ok(KtEnum { entries, to_native_by_ordinal, from_table })
+}
+
+/// The number each Dart entry stands for: its position, or the `_ffi` getter's table when the enum has one.
+pub fn dart_enum_eval(text: &str, name: &str) -> Result<Vec<i64>, String> {
+    let at = text.find(&format!("enum {name} ")).or_else(|| text.find(&format!("enum {name}{{"))).ok_or("no `enum`")?;
+    let rest = &text[at..];
+    let open = rest.find('{').ok_or("no body")?;
+    let semi = rest[open..].find(';').ok_or("no `;` after the entries")? + open;
+    let names: Vec<String> = rest[open + 1..semi].split(',').map(|e| e.lines().filter(|l| !l.trim_start().starts_with("///")).collect::<Vec<_>>().join(" ").trim().to_string()).filter(|e| !e.is_empty()).collect();
+    match fn_body(rest, "int get _ffi") {
+        None => Ok((0..names.len() as i64).collect()),
+        Some(b) => {
+            let b = tool::norm_ws(b);
+            let mut out = vec![];
+            for n in &names {
+                let key = format!("case {n}: return ");
+                let p = b.find(&key).ok_or(format!("no `_ffi` arm for {n}"))?;
+                let v: String = b[p + key.len()..].chars().take_while(|c| *c == '-' || c.is_ascii_digit()).collect();
+                out.push(v.parse::<i64>().map_err(|_| format!("`_ffi` arm for {n}"))?);
+            }
+            Ok(out)
+        }
+    }
 }
 
 /// Attributes on single variants (a rename, a backend-conditional rename, documentation links): every variant keeps its
